@@ -138,6 +138,7 @@ func runC12(c *engine.Ctx, tier string) {
 	c12ErrPathDeref(c, d)
 	c12Narrowing(c, d)
 	c12GoBeforeCheck(c)
+	c12StreamTypestate(c)
 	// C12.9: cancelling a request (every Set/rollback/watch handler leaves its store watch that way) must
 	// not be able to panic the store: no close of a channel another goroutine may still send on
 	for _, rel := range storePkgs {
@@ -1499,6 +1500,78 @@ func c12GoBeforeCheck(c *engine.Ctx) {
 						o.Fail(&engine.Violation{Key: key, Pos: c.P.Pos(g.Pos), Func: p.Root.Name(),
 							Msg: "a goroutine is started here although the error of " + c.Render(ce.Canon) + " (" + c.P.Pos(ce.Pos) + ") is only examined afterwards: the goroutine also runs when that call failed"})
 					}
+				}
+			}
+		}
+	}
+}
+
+// c12StreamTypestate: C12.12. The backing gNMI client has two states — no subscription stream, stream
+// open — and its Poll and Recv dereference the stream without looking. The wrapper in
+// pkg/southbound/gnmi is the only caller; it must know the state.
+func c12StreamTypestate(c *engine.Ctx) {
+	o := c.Custom("C12.12", "typestate(subscription stream)", "in pkg/southbound/gnmi every call of the backing client's Poll is made on a path that either saw the backing Subscribe succeed or tested the wrapper's 'subscribed' flag true; the flag is set true only after the backing Subscribe succeeded; Recv is called only from the monitor (started after a successful Subscribe: C12.11, C19.5)",
+		"polls are relayed to every target of a northbound stream, also to targets whose subscription could not be opened: the wrapper is the last place that can refuse")
+	defer o.Done(2)
+	ps, err := c.A.PathsOpt("pkg/southbound/gnmi", engine.PathOpts{NoInline: true})
+	if err != nil {
+		o.Undecided("pkg/southbound/gnmi", err.Error())
+		return
+	}
+	reported := map[string]bool{}
+	for _, p := range ps {
+		for i := range p.Events {
+			e := &p.Events[i]
+			if e.Kind != engine.EvCall {
+				continue
+			}
+			subOK := func() bool {
+				for j := 0; j < i; j++ {
+					ce := &p.Events[j]
+					if ce.Kind == engine.EvCall && ce.CalleeName == "gnmi.Client.Subscribe" {
+						for _, l := range engine.CondsBefore(p, i) {
+							if l.L == "err("+ce.Canon+")" && l.RNil && l.Mask == 2 {
+								return true
+							}
+						}
+					}
+				}
+				return false
+			}
+			flagOK := func() bool {
+				for _, l := range engine.CondsBefore(p, i) {
+					if strings.HasSuffix(l.L, "atomic.Bool.Load()") && l.R == "true" && l.Mask == 2 {
+						return true
+					}
+				}
+				return false
+			}
+			bad := ""
+			switch {
+			case e.CalleeName == "gnmi.Client.Poll":
+				o.Site(c.P.Pos(e.Pos) + " backing Poll in " + p.Root.Name())
+				o.Eval(1)
+				if !subOK() && !flagOK() {
+					bad = "the backing client's Poll is reachable without knowing that a subscription stream was opened: it writes to a nil stream"
+				}
+			case e.CalleeName == "gnmi.Client.Recv":
+				o.Site(c.P.Pos(e.Pos) + " backing Recv in " + p.Root.Name())
+				o.Eval(1)
+				if !strings.HasSuffix(p.Root.Name(), "client.run") && !subOK() && !flagOK() {
+					bad = "the backing client's Recv is called outside the response monitor without knowing that a stream was opened"
+				}
+			case e.CalleeName == "atomic.Bool.Store" && len(e.Args) == 1 && e.Args[0] == "true":
+				o.Site(c.P.Pos(e.Pos) + " flag set in " + p.Root.Name())
+				o.Eval(1)
+				if !subOK() {
+					bad = "the 'subscribed' flag is set on a path where the backing Subscribe did not succeed"
+				}
+			}
+			if bad != "" {
+				key := p.Root.Name() + "|" + bad
+				if !reported[key] {
+					reported[key] = true
+					o.Fail(&engine.Violation{Key: key, Pos: c.P.Pos(e.Pos), Func: p.Root.Name(), Msg: bad, Found: engine.LitsString(engine.CondsBefore(p, i))})
 				}
 			}
 		}
